@@ -35,9 +35,9 @@ from .common import Harness, zbool, instrumented
 from . import hrun
 
 PROPERTY = 'C01'
-BOUNDS = {'quick': 'chunk: k<=4 lines; run order: k=3 parts; capture: as C12 quick',
-          'thorough': 'chunk: k<=6 lines; run order: k=4 parts'}
-OUTSIDE = ('where statements begin and end (_locate_ps1_linenos = ast.parse, the tokenizer), what compile/exec do with the text, top-level await semantics, '
+BOUNDS = {'quick': 'chunk: k<=4 lines; run order: k=3 parts; program_parts: 2 statements of 12 kinds x style x directive x want x 3 layouts; capture: as C12 quick',
+          'thorough': 'chunk: k<=6 lines; run order: k=4 parts; program_parts: also 3 statements without wants'}
+OUTSIDE = ('where statements begin and end for programs outside the grammar of program_parts (_locate_ps1_linenos = ast.parse, the tokenizer are real there and oracles elsewhere), what compile/exec do with the text, top-level await semantics, '
            'and therefore "same effect as executing the de-prompted source as a plain program": none of it can be encoded; the claim is that '
            "xdoctest's own slicing / ordering / namespace / capture logic loses, duplicates or re-orders nothing for every answer those components can give")
 ASSUMPTIONS = ['the boundary oracle returns a sorted subset of the ">>> " prefixed lines that contains line 0 (its contract: statement starts, PS2 lines removed)',
@@ -52,6 +52,10 @@ def jobs(tier):
              'bounds': 'k<=%d source lines, lineno unbounded' % (4 if q else 6)},
             {'ob': 'run_order_namespace', 'harness': 'order', 'k': 3 if q else 4, 'splits': [3, 6, 9], 'query_timeout_s': 60,
              'bounds': 'k=%d parts' % (3 if q else 4)},
+            {'ob': 'program_parts', 'harness': 'program', 'k': 2, 'wants': True, 'splits': [2, 4], 'query_timeout_s': 60,
+             'bounds': '2 statements from a grammar of 12 kinds (simple, expression, compound, decorated def / async def / class, double decorator, bracket, triple-quoted string, comment, await, async with) x prompt style (>>> everywhere / ... continuation / unprefixed string lines) x inline directive x want, 3 layouts (flush left, indented below prose, indented)'}] + ([] if q else [
+            {'ob': 'program_parts', 'harness': 'program', 'k': 3, 'wants': False, 'splits': [2, 4, 6], 'query_timeout_s': 60, 'job_timeout_s': 3000,
+             'bounds': '3 statements from the same grammar without wants'}]) + [
             dict(cj, ob='capture_attribution', harness='capture')]
 
 
@@ -262,7 +266,56 @@ class Order(Harness):
                 'module': z3.is_true(model.eval(self.hasmod, model_completion=True))}
 
 
+class Program(Harness):
+    """kind III: a doctest generated from the statement grammar of c01_program goes through the
+    REAL parser (real tokenizer, real ast): statements keep their lines and their part."""
+    witnesses = ('decorated_async_def_after_directive', 'unprefixed_string_lines_in_indented_block', 'statement_with_want_then_statement', 'continuation_style_compound')
+
+    def __init__(self, job):
+        instrumented()
+        from xdoctest import parser
+        from . import c01_program as P
+        self.parser = parser
+        self.P = P
+        self.job = job
+        self.variants = [dict(kind=k, style=s, directive=d, want=w) for k in range(len(P.KINDS)) for s in range(P.STYLES) for d in (False, True) for w in (False, True)]
+        self.variants = [v for v in self.variants if P.applicable(v) and (job.get('wants', True) or not v['want'])]
+        self.v = [z3.Int('statement%d' % i) for i in range(job['k'])]
+        self.layout = z3.Int('layout')
+        self.base = [self.layout >= 0, self.layout <= 2]
+        for v in self.v:
+            self.base += [v >= 0, v < len(self.variants)]
+
+    def case(self, n):
+        lay = n(self.layout)
+        return {'harness': 'program', 'stmts': [self.variants[n(v)] for v in self.v], 'indent': 0 if lay == 0 else 4, 'prose': lay == 1}
+
+    def run(self, ex):
+        from sea.core import SymInt
+        P = self.P
+        c = self.case(lambda v: int(SymInt(v)))
+        bad = P.problems(self.parser, c)
+        self.last_error = bad
+        names = [P.KINDS[s['kind']][0] for s in c['stmts']]
+        if not bad:
+            for a, b in zip(c['stmts'], c['stmts'][1:]):
+                if a['directive'] and P.KINDS[b['kind']][0] == 'decorated_async_def':
+                    ex.witness('decorated_async_def_after_directive', True)
+                if a['want'] and not b['want']:
+                    ex.witness('statement_with_want_then_statement', True)
+            if c['prose'] and any(s['style'] == 2 for s in c['stmts']):
+                ex.witness('unprefixed_string_lines_in_indented_block', True)
+            if any(s['style'] == 1 and n == 'compound' for s, n in zip(c['stmts'], names)):
+                ex.witness('continuation_style_compound', True)
+        return {'statements_keep_their_lines_and_their_part': z3.BoolVal(not bad)}
+
+    def describe(self, model):
+        return self.case(lambda v: model.eval(v, model_completion=True).as_long())
+
+
 def build(job):
+    if job['harness'] == 'program':
+        return Program(job)
     if job['harness'] == 'chunk':
         return Chunk(job)
     if job['harness'] == 'order':
@@ -281,6 +334,12 @@ def replay(job, cex):
         if r.get('signature'):
             r['signature'] = r['signature'].replace('C12:', 'C01:capture:')
         return r
+    if h == 'program':
+        from xdoctest import parser
+        from . import c01_program as P
+        bad = P.problems(parser, cex)
+        kind = 'raises' if any('raises' in b for b in bad) else ('lines' if any('differ' in b for b in bad) else 'parts')
+        return {'reproduced': bool(bad), 'detail': 'doctest %r: %s' % (P.doctest_text(cex)[0], bad), 'signature': 'C01:program:' + kind}
     if h == 'chunk':
         # realise the chunk with real statements; the real boundary detection then has to
         # agree with the oracle's answer, otherwise the counterexample is abstract
